@@ -675,6 +675,10 @@ def explore(run, on_path=None, max_paths=4000):
                 old.__dict__["post"] = a
                 if C.ensures is not None:
                     for nm, f in _named(C.ensures(old, value)):
+                        if isinstance(f, tuple) and f and f[0] in ("induct", "induct_down", "assert"):
+                            # a ghost step between postcondition clauses (an induction z3 will not find by itself): proved, then assumed
+                            interp.run_ghost(lambda v, f=f: [f], Env(None), fnode, "post")
+                            continue
                         ctx.oblige("post", nm, f, fnode)
                 for cls, when in C.raises:
                     ctx.oblige("raises.required", cls, Not(when(old)), fnode)
